@@ -69,6 +69,26 @@ def check_member(country: str, bban: str, between=None, via_object=False):
         if (k9, v9) != ("ok", country + ref + bban):
             bad.append((f"from_bban-wrong [{how}]", {**case, "dd": None, "how": how}, country + ref + bban, (k9, v9)))
             break
+    if via_object:
+        # arguments that are str instances of another type: a plain subclass and a (str, Enum) member
+        import enum
+
+        class Text(str):
+            pass
+        for how, mk in (("str subclass", Text), ("(str, Enum) member", lambda v: enum.Enum("Code", {"V": v}, type=str).V)):
+            k10, v10 = lib.outcome(lambda: str(lib.IBAN.from_bban(mk(country), mk(bban))))
+            if (k10, v10) != ("ok", country + ref + bban):
+                bad.append((f"from_bban-wrong [arguments given as {how}]", {**case, "dd": None, "argument_type": how},
+                            country + ref + bban, (k10, v10)))
+        # an application-defined subclass of IBAN judges like IBAN
+
+        class CustomerIBAN(lib.IBAN):
+            pass
+        for dd in dict.fromkeys([ref, "00", f"{(int(ref) + 1) % 100:02d}"]):
+            k11, _ = lib.outcome(CustomerIBAN, country + dd + bban)
+            if (k11 == "ok") != (dd == ref):
+                bad.append(("subclass-of-IBAN-judges-differently", {**case, "dd": dd, "subclass": True},
+                            "accept" if dd == ref else "reject", k11))
     if not ("02" <= ref <= "98"):
         bad.append(("reference-digits-out-of-range", {**case, "dd": None}, "02..98", ref))
     canon = country + ref + bban
@@ -171,7 +191,7 @@ def shard(args):
         return runtime_shard(args)
     if args[0] == "after-activity":
         return after_activity_shard(args)
-    if args[0] == "python -O":
+    if args[0] in ("python -O", "python -W error", "python, C locale"):
         return optimised_shard(args)
     country, tier = args
     part = par.Part()
@@ -232,6 +252,13 @@ def shard(args):
         part.sample({"country": country, "filler": f, "members": fam[:3],
                      "digits": [ri.check_digits(country, b) for b in fam[:3]]})
         part.stat("families")
+    # the remaining fillers (all letters, all maximal / minimal characters, ...): the base itself, lightly
+    for f in [x for x in bases.FILLERS if x not in fillers]:
+        b = bases.bban(c, f)
+        part["evals"] += 7
+        part.seen.add(hash(("filler-base", f, b)))
+        for sig, case, exp, obs in check_member_light(country, b):
+            part.violation(sig + f" [{f} filler]", case, exp, obs)
     part.stat("countries")
     part.stat("residue_values_covered", residues_total)
     return part.done()
@@ -265,29 +292,47 @@ def after_activity_shard(args):
     return part.done()
 
 
-def optimised_child(tier):
-    """Runs inside ``python -O``: three family members per country, full 100-pair check."""
+def optimised_child(arg):
+    """Runs inside a brand-new interpreter started with other options (``python -O``, ``python -W
+    error``, a process with the C locale): three family members per country, full 100-pair check."""
+    tier, label = arg if isinstance(arg, tuple) else (arg, "python -O")
     part = par.Part()
     for country in sorted(reg.countries()):
         c = reg.countries()[country]
         fam, _ = residue_family(country, bases.bban(c, "distinct"), want=3)
         for b in fam:
             for sig, case, exp, obs in check_member(country, b):
-                part.violation(sig + " [python -O]", case, exp, obs)
+                part.violation(sig + f" [{label}]", dict(case, interpreter=label), exp, obs)
             part["evals"] += 101
             for d in range(100):
-                part.seen.add(hash(("-O", d, country, b)))
+                part.seen.add(hash((label, d, country, b)))
     part.stat("optimised_interpreter_runs")
     return part.done()
 
 
 def optimised_shard(args):
-    part = par.in_interpreter(["-O"], "mc.props.c02", "optimised_child", args[1])
+    from . import c01
+    label = args[0]
+    try:
+        part = par.in_interpreter(c01.INTERPRETERS[label], "mc.props.c02", "optimised_child", (args[1], label),
+                                  env=c01.INTERPRETER_ENV.get(label))
+    except report.HarnessError as e:
+        if "/schwifty/" not in str(e):
+            raise
+        part = par.Part()
+        part["evals"] += 1
+        part.violation(f"library-unusable [{label}]", {"kind": "c02", "country": "DE", "bban": "370400440532013000",
+                       "dd": None, "interpreter": label}, "IBAN assembled", str(e)[-400:])
+        return part.done()
     part["foreign"] = part.get("foreign") or set()
     return part
 
 
 def replay(case: dict) -> dict:
+    if case.get("interpreter"):
+        part = optimised_shard((case["interpreter"], "quick"))
+        hit = [v for v in part["violations"] if v["case"].get("bban") == case.get("bban") and v["case"].get("dd") == case.get("dd")]
+        return {"ok": not hit, "observed": hit[0]["observed"] if hit else None, "interpreter": case["interpreter"]}
     if case.get("kind") == "runtime-table":
         from . import c18
         probs = c18.runtime_table_problems()
@@ -303,7 +348,9 @@ def replay(case: dict) -> dict:
     if case.get("national"):
         k, v = lib.iban_parse(case["country"] + case["dd"] + case["bban"], True)
         return {"ok": k != "ok", "expected": "reject", "observed": (k, v)}
-    bad = check_member(case["country"], case["bban"], via_object=bool(case.get("via_object")))
+    every_way = bool(case.get("via_object") or case.get("argument_type") or case.get("subclass") or case.get("entry")
+                     or case.get("how"))
+    bad = check_member(case["country"], case["bban"], via_object=every_way)
     for sig, cs, exp, obs in bad:
         if cs.get("dd") == case.get("dd"):
             return {"ok": False, "signature": sig, "expected": exp, "observed": obs}
@@ -313,7 +360,8 @@ def replay(case: dict) -> dict:
 def main(tier: str) -> int:
     run = report.Run(PID, tier, "exploration", RULE)
     countries = sorted(reg.countries())
-    par.run_shards(run, shard, [("runtime-table", tier), ("after-activity", tier), ("python -O", tier)] + [(c, tier) for c in countries])
+    par.run_shards(run, shard, [("runtime-table", tier), ("after-activity", tier), ("python -O", tier), ("python -W error", tier),
+                                ("python, C locale", tier)] + [(c, tier) for c in countries])
     fams = run.stats.get("families", 0)
     run.exhaustive = (run.stats.get("families_not_residue_complete", 0) == 0)
     run.extra.update({
